@@ -23,7 +23,7 @@ func ruleOutputGate(rulePrefix string) func(p *Prog, r *Result) {
 				return false, "the result is not the accumulated list of outputs: " + res.String()
 			}
 			info := pr.carried[res.N]
-			if info.Init == nil || !info.Init.IsEmptyList() {
+			if info.Init == nil || !(info.Init.IsEmptyList() || info.Init.IsNil()) {
 				return false, "the result list does not start empty"
 			}
 			n := 0
